@@ -242,7 +242,21 @@ pub fn iter_expect(l: &L, op: &Op) -> (Val, L) {
     if let Some((f, b)) = clone_range {
         out.push(Val::Str("clone".into()));
         out.push(Val::Num((b - f) as i64));
-        out.push(Val::List((f..b).map(|i| proj(l[order[i]])).collect()));
+        // the clone is drained from both ends alternately, back first
+        let (mut lo, mut hi) = (f, b);
+        let mut items = Vec::new();
+        let mut back = true;
+        while lo < hi {
+            if back {
+                hi -= 1;
+                items.push(proj(l[order[hi]]));
+            } else {
+                items.push(proj(l[order[lo]]));
+                lo += 1;
+            }
+            back = !back;
+        }
+        out.push(Val::List(items));
     }
     (Val::List(out), post)
 }
